@@ -163,6 +163,17 @@ func genC05(r *Rng, tier string) *World {
 			}
 		}
 	})
+	// a test of a catching node that reports two issues when it fails: both are this node's failure
+	w.Schemas[0].Walk(func(n *Node) {
+		if (n.Kind == "string" || n.Kind == "int") && n.W == "" && n.Catch != nil {
+			for i := range n.Tests {
+				t := &n.Tests[i]
+				if t.T == "custom" && t.Msg == "" && !t.MsgFn && len(t.Params) == 0 && !t.Reusable && r.P(0.25) {
+					t.TFunc, t.Twice = true, true
+				}
+			}
+		}
+	})
 	// a catching node's test may report under another path (z.IssuePath): still this node's failure, still caught
 	// (only where the node has one instance per call: below a slice the shared path would not say which element failed)
 	redir := 0
@@ -568,7 +579,8 @@ func genC13(r *Rng, tier string) *World {
 	w := &World{Prop: "C13", Cfg: DrawDecCfg(r)}
 	c := DrawGenCfg(r, "validate")
 	c.without("pre")
-	c.PPT = Pick(r, []float64{0, 0.2})
+	c.PPT = Pick(r, []float64{0, 0.2, 0.4})
+	c.PPTErr = Pick(r, []float64{0, 0.3})
 	c.PValid = Pick(r, []float64{0.4, 0.7, 0.9})
 	c.Widths = true
 	c.RawStrings = true
